@@ -127,19 +127,18 @@ func ruleCkRep(pkgs ...string) func(p *Prog, r *Report) {
 
 type errException struct {
 	fn, callee string
-	ordinal    int
 	reason     string
 }
 
-// The accepted exceptions, confirmed by reading the code: the argument is a
-// substring of a token the lexer only emits for \d+ (or the empty lower bound
-// of "[..n]"), so the only possible failure is a range overflow, on which
-// Atoi returns the clamped extreme that the callers' range checks reject.
+// The accepted exceptions, confirmed by reading the code: in these two
+// functions strconv.Atoi is applied to a substring of a token the lexer only
+// emits for \d+ (or to the documented empty lower bound of "[..n]"), so the
+// only possible failure is a range overflow, on which Atoi returns the clamped
+// extreme that the callers' range checks reject (R14-sml stream/function; the
+// size check for sizes). Keyed by function and callee, not by position.
 var errExceptions = []errException{
-	{"(*sml.parser).parseStreamFunctionCode", "strconv.Atoi", 0, "digits of the stream code; overflow clamps to MaxInt which the [0,128) check rejects (R14-sml stream)"},
-	{"(*sml.parser).parseStreamFunctionCode", "strconv.Atoi", 1, "digits of the function code; overflow clamps to MaxInt which the [0,256) check rejects (R14-sml function)"},
-	{"(*sml.parser).parseDataItemSize", "strconv.Atoi", 0, "digits of [n]; overflow clamps to MaxInt, no item has that size, so the size check reports it"},
-	{"(*sml.parser).parseDataItemSize", "strconv.Atoi", 1, "digits or the documented empty lower bound of [..n] (0)"},
+	{"(*sml.parser).parseStreamFunctionCode", "strconv.Atoi", "digits of the stream/function code; overflow clamps to MaxInt, which the [0,128) / [0,256) checks reject (R14-sml)"},
+	{"(*sml.parser).parseDataItemSize", "strconv.Atoi", "digits of a size bound, or the documented empty lower bound of [..n] (0); overflow clamps to MaxInt, no item has that size, so the size check reports it"},
 }
 
 func usedValue(v ssa.Value) bool {
@@ -200,7 +199,7 @@ func ruleErrDiscipline(p *Prog, r *Report) {
 				}
 				exc := ""
 				for _, e := range errExceptions {
-					if e.fn == FnName(fn) && e.callee == cname && e.ordinal == k {
+					if e.fn == FnName(fn) && e.callee == cname {
 						exc = e.reason
 					}
 				}
